@@ -527,3 +527,4 @@ MANIFEST = {
 MANIFEST["text"] += ' Also: numerator and normalising total read the same version of the weights (no rebinding in between); every normalised coordinate has passed a periodic wrap; inferred scan positions are laid out (scan axis 0, scan axis 1) like the measured origins.'
 MANIFEST["text"] += ' Thresholding or indexing with the detector mask is a positively identified use kind and is reported as definite.'
 MANIFEST["text"] += " R5 also: ptycho_utils.fit_origin's coordinate grids are kinded (KAT; np.indices is 'ij', np.meshgrid defaults to 'xy'): the row grid varies along axis 0 over shape[0]."
+MANIFEST["text"] += ' R8 (coupled): the first moments are formed in a type that cannot wrap around (default-typed coordinate grids, or patterns always stored as floats).'
